@@ -157,6 +157,12 @@ def maybe_unbound(f: Func) -> list[tuple[ast.Name, str]]:
         if killed:
             new = {v: frozenset((c, t) for c, t in fs if not any(k in c.replace("(", " ").replace(")", " ").replace(".", " ").split() for k in killed))
                    for v, fs in new.items()}
+        # `flag = True` / `flag = False` is a fact about the flag on every path that continues from here: a later test of the flag
+        # then tells the paths apart (the "has returned" flags of dissolved helpers, hand-written found/done flags)
+        a_ = n.ast
+        if isinstance(a_, ast.Assign) and len(a_.targets) == 1 and isinstance(a_.targets[0], ast.Name) and isinstance(a_.value, ast.Constant) \
+                and isinstance(a_.value.value, bool):
+            new = {v: fs | {(a_.targets[0].id, a_.value.value)} for v, fs in new.items()}
         if out[n] != new or inn_changed:
             out[n] = new
             for _, s in n.succ:
